@@ -90,6 +90,9 @@ pub enum CookieStyle {
     EmptyFirst,
     /// cookies whose last two octets are 04 00 (look like an empty OCTET STRING element)
     TailLooksEmpty,
+    /// distinct cookies; the response control is marked critical and carries a result-set
+    /// size estimate (70000 on the first page, 128 on later ones) instead of 0
+    WithEstimate,
 }
 
 #[derive(Clone, Debug, Serialize, Deserialize, PartialEq, Eq)]
